@@ -866,6 +866,16 @@ class Engine:
             if isinstance(a, str) and isinstance(b, str):
                 return [(st, a + b)]
             return [(st, z3.Concat(to_str_term(a), to_str_term(b)))]
+        if op == '*' and (is_strlike(a) and is_intlike(b) or is_strlike(b) and is_intlike(a)) and not isinstance(a, bool) and not isinstance(b, bool):
+            sv, n = (a, b) if is_strlike(a) else (b, a)
+            n0 = simp(n)
+            if isinstance(sv, str) and is_conc_int(n0):
+                return [(st, sv * n0)]
+            # text repeated a symbolic number of times: some string (over-approximation); its length is known when the text is
+            r = z3.String(uid('rep'))
+            if isinstance(sv, str):
+                st.assume(z3.Length(r) == z3.If(to_int(n0) < 0, z3.IntVal(0), to_int(n0)) * len(sv))
+            return [(st, r)]
         if op == '%' and is_strlike(a):
             if isinstance(a, str) and is_concrete(b):
                 try:
@@ -1516,7 +1526,7 @@ class Engine:
                     raise Unsupported('mutation of a record reached through a non-subscript expression (line %s)'
                                       % getattr(node, 'lineno', '?'))
                 sub, _ = wb
-                newrec = Rec(o.cls, o.fields)
+                newrec = self.snapshot(Rec(o.cls, dict(o.fields)), s)     # nested objects given identity for the call: by value again
                 self.sinks.append([])
                 try:
                     for s2, (cont, idx) in self.ev_seq([sub.value, sub.slice], s):
@@ -1905,6 +1915,12 @@ class Engine:
         if len(parts) == 1:
             return
         obj = self.spec('.'.join(parts[:-1]), tmp)
+        if isinstance(obj, Rec) and len(parts) > 2:
+            # a nested record held by value (an element of a sequence made into an object for this call): give it identity
+            par = self.spec('.'.join(parts[:-2]), tmp)
+            if isinstance(par, Ref) and st.heap[par.oid].fields.get(parts[-2]) is obj:
+                obj = self.rec_to_obj(obj, st)
+                st.heap[par.oid].fields[parts[-2]] = obj
         if not isinstance(obj, Ref):
             raise ContractError('modifies path %s does not denote an object field' % path)
         o = st.heap[obj.oid]
